@@ -32,6 +32,17 @@ func (p *Prog) text(n ast.Node) string {
 	return s
 }
 
+// fullText is text without the cut at 120 characters, for comparing whole
+// statements.
+func (p *Prog) fullText(n ast.Node) string {
+	if n == nil {
+		return "<nil>"
+	}
+	var b bytes.Buffer
+	_ = printer.Fprint(&b, p.Fset, n)
+	return strings.Join(strings.Fields(b.String()), " ")
+}
+
 // constOf returns the folded constant value of an expression, if any.
 func (p *Prog) constOf(e ast.Expr) constant.Value {
 	if tv, ok := p.infoFor(e).Types[e]; ok && tv.Value != nil {
